@@ -31,7 +31,7 @@ def perturb(model, rnd):
         elif r < 0.8:
             out[k] = str(rnd.choice(BOUNDARY))
         else:
-            out[k] = str(max(0, int(v) + rnd.choice([-1, 1])))
+            out[k] = str(min(2**64 - 1, max(0, int(v) + rnd.choice([-1, 1]))))  # stay inside uint64: 2^64 is no value of any zz input
     return out
 
 
